@@ -159,6 +159,7 @@ type Exec struct {
 	poison           func()
 	poisonOnce       sync.Once
 	Poisoned         atomic.Bool
+	EmitGoexits      atomic.Int64 // state reports at which the emitter killed its goroutine
 	paramSeq         atomic.Int64
 	ParamsOutOfOrder atomic.Int64  // Params values asked for out of their order (or again)
 	MidPoisons       atomic.Int64  // argument calls of a BareMix program that ran (each overwrites the argument variables before it)
